@@ -117,6 +117,20 @@ def main():
                               {"traceback": traceback.format_exc()[-1500:], "last_samples": ctx.samples[-2:]})
             else:
                 raise
+        except (core.HarnessError, core.ModelError):
+            raise
+        except Exception as e:  # noqa: BLE001
+            # safety net: an exception raised *inside the implementation* (innermost non-JAX frame in the probdiffeq package)
+            # for an input on which the unchanged tree returns a value is a behavioural difference, hence a finding with
+            # the traceback as replay - never a harness crash.  Exceptions raised by the harness itself stay harness errors.
+            frames = [f for f in traceback.extract_tb(e.__traceback__) if "/site-packages/" not in f.filename and "/lib/python" not in f.filename]
+            if frames and "/probdiffeq/" in frames[-1].filename and "/verif/" not in frames[-1].filename:
+                where = f"{Path(frames[-1].filename).name}:{frames[-1].name}"
+                ctx.violation(f"impl-exception:{type(e).__name__}:{where}",
+                              f"the implementation raised {type(e).__name__} in {where} for an input the check generates on every run: {str(e)[:200]}",
+                              {"traceback": traceback.format_exc()[-2500:], "last_samples": ctx.samples[-2:]})
+            else:
+                raise
     except core.HarnessError as e:
         print(f"HARNESS-ERROR {pid}: {e}")
         traceback.print_exc()
